@@ -359,8 +359,8 @@ def check_cubic(spec, solver=True, full=False):
     bad = np.argwhere(np.abs(C - ref) > 1e-9 * scale)
     if len(bad):
         m, k = bad[0]
-        return (f"get_full_coeffs: channel {m} ({len(spec['chans'][m]['tlist'])} samples) at t={T[k]!r} is {C[m][k]!r}, "
-                f"the spline through its samples is {ref[m][k]!r}")
+        return (f"get_full_coeffs: channel {m} ({len(spec['chans'][m]['tlist'])} samples) at t={float(T[k])!r} is {float(C[m][k])!r}, "
+                f"the spline through its samples is {float(ref[m][k])!r}")
     # run_analytically: slice k holds the coefficients at T_k
     import scipy.linalg as sla
     U = np.eye(drift_full.shape[0], dtype=complex)
@@ -489,7 +489,11 @@ class C14(PropertyCheck):
                   "PARTIAL: the agreement of expm products, run_state (sesolve/mesolve) and the text round trip with the time-ordered "
                   "exponential is numerical; it is checked on every run by the correspondence (1-3 subsystems of dimension 2-3, 1-4 "
                   "channels, independent non-uniform grids ending at different times, ket and density matrix) against an independent "
-                  "ordered product of scipy.linalg.expm over the model's merged grid, not proved.  Cubic-spline coefficients are not modelled.")
+                  "ordered product of scipy.linalg.expm over the model's merged grid, not proved.  Cubic-spline coefficients (partial, "
+                  "numerical): processors with spline_kind='cubic', channels with 2-7 samples on independent grids ending at the same / "
+                  "different times: get_full_coeffs against an independent make_interp_spline evaluation, run_analytically, the operator "
+                  "the solver integrates, run_state against an independent DOP853 integration and save/reload; the model only states the "
+                  "degree min(3, n-1) of the interpolant per sample count (Grid.splineDegree, compared behaviourally).")
     level_note = ("partial: proof for the resampling / merged-grid / label logic; the solver clause (Qobj.expm, sesolve/mesolve, "
                   "np.savetxt '%1.16f' precision, cubic splines) is trusted runtime numerics compared to 1e-9 (analytic) / 2e-6 (solver) "
                   "on sampled processors.  The analytic fact 'time-ordered exponential of a piecewise-constant H = ordered product of "
